@@ -2,6 +2,8 @@ CONSTANTS
   NZooms = 1
   IsBed = FALSE
   HeaderFirst = TRUE
+  Stale = FALSE
+  SkipBlank = FALSE
 SPECIFICATION Spec
 INVARIANTS PrefixSafe
 CHECK_DEADLOCK FALSE
